@@ -265,6 +265,7 @@ class Prop:
                                no_input=True)
                 return False
             kind = 'the clause holds at %d sampled points of its domain (true functions, 34 digits); the solver cannot derive it from the axiom list' % info['n'] if holds else 'the domain of the clause could not be sampled'
+            E.TRIAGE['unproved'] += 1
             line = ('UNPROVED-IDENTITY' if holds else 'UNDECIDED') + ' property=%s obligation=%s path=%s (%s)' % (self.pid, name, path, kind)
             self.lines.append(line)
             print(line, flush=True)
@@ -289,6 +290,7 @@ class Prop:
                                                    reason='code side and specification side of the clause differ as functions (50-digit evaluation); no input found that exceeds the property tolerance'),
                            no_input=True)
             return False
+        E.TRIAGE['unproved'] += 1
         line = 'UNPROVED-IDENTITY property=%s obligation=%s path=%s (sides agree to 30 digits at %s points; axiom list cannot normalise)' % (
             self.pid, name, path, where.get('n') if isinstance(where, dict) else '?')
         self.lines.append(line)
